@@ -252,6 +252,7 @@ func C03(rep *ev.Reporter, tier string) {
 		gen0(func(c Case) {
 			c.ReuseDC = true // applies to programs calling Forget / Changed
 			c.JSONProv = true
+			c.Histories = true
 			emit(c)
 		})
 	}
